@@ -4,6 +4,7 @@
 //! router. It only wraps existing items; it contains no driver logic of its own.
 
 use super::*;
+use crate::response::PagingStateResponse;
 
 /// C02/C10: `ResponseHandlerMap` with opaque handler tokens (the request id).
 pub struct StreamMap {
@@ -258,4 +259,250 @@ pub(crate) async fn dummy_connection(addr: SocketAddr) -> Result<Arc<Connection>
         .await
         .map(|(conn, _error_receiver)| Arc::new(conn))
         .map_err(|e| e.to_string())
+}
+
+/// Options of a [`VerifConn`].
+#[derive(Default)]
+pub struct VerifConnOptions {
+    pub timestamp_generator: Option<Arc<dyn TimestampGenerator>>,
+    pub compression: Option<Compression>,
+    pub keepalive_interval: Option<Duration>,
+    pub keepalive_timeout: Option<Duration>,
+}
+
+/// C07/C14/C18/C20: one real, fully set-up `Connection` (OPTIONS/STARTUP handshake done by
+/// `open_connection`) against a scripted server, with its crate-private request methods
+/// re-exposed. Errors are mapped to short labels.
+pub struct VerifConn {
+    conn: Arc<Connection>,
+    broken: StdMutex<Option<oneshot::Receiver<String>>>,
+}
+
+fn attempt_error_label(e: &RequestAttemptError) -> String {
+    match e {
+        RequestAttemptError::SerializationError(_) => "SerializationError".into(),
+        RequestAttemptError::CqlRequestSerialization(_) => "CqlRequestSerialization".into(),
+        RequestAttemptError::UnableToAllocStreamId => "UnableToAllocStreamId".into(),
+        RequestAttemptError::BrokenConnectionError(b) => format!("Broken:{}", broken_kind(b)),
+        RequestAttemptError::BodyExtensionsParseError(_) => "BodyExtensionsParseError".into(),
+        RequestAttemptError::CqlResultParseError(_) => "CqlResultParseError".into(),
+        RequestAttemptError::CqlErrorParseError(_) => "CqlErrorParseError".into(),
+        RequestAttemptError::DbError(db, _) => format!("DbError:{}", db.code(&Default::default())),
+        RequestAttemptError::UnexpectedResponse(k) => format!("UnexpectedResponse:{k}"),
+        RequestAttemptError::RepreparedIdChanged { .. } => "RepreparedIdChanged".into(),
+        RequestAttemptError::RepreparedIdMissingInBatch => "RepreparedIdMissingInBatch".into(),
+        RequestAttemptError::NonfinishedPagingState => "NonfinishedPagingState".into(),
+        #[allow(unreachable_patterns)]
+        _ => "OtherAttemptError".into(),
+    }
+}
+
+impl VerifConn {
+    /// `open_connection(ContactPoint(addr), None, &config)`.
+    pub async fn open(addr: SocketAddr, options: VerifConnOptions) -> Result<Self, String> {
+        let mut config = host_connection_config();
+        config.timestamp_generator = options.timestamp_generator;
+        config.compression = options.compression;
+        config.keepalive_interval = options.keepalive_interval;
+        config.keepalive_timeout = options.keepalive_timeout;
+        let endpoint =
+            UntranslatedEndpoint::ContactPoint(crate::cluster::node::ResolvedContactPoint {
+                address: addr,
+            });
+        let (conn, error_receiver) = open_connection(&endpoint, None, &config)
+            .await
+            .map_err(|e| e.to_string())?;
+        let (label_sender, label_receiver) = oneshot::channel();
+        tokio::task::spawn(async move {
+            if let Ok(err) = error_receiver.await {
+                let label = match &err {
+                    ConnectionError::BrokenConnection(b) => broken_kind(b),
+                    other => format!("ConnectionError:{other}"),
+                };
+                let _ = label_sender.send(label);
+            }
+        });
+        Ok(Self {
+            conn: Arc::new(conn),
+            broken: StdMutex::new(Some(label_receiver)),
+        })
+    }
+
+    /// Label of the error that broke the connection, if it is broken by now.
+    pub fn broken_label(&self) -> Option<String> {
+        let mut guard = self.broken.lock().unwrap();
+        let rx = guard.as_mut()?;
+        match rx.try_recv() {
+            Ok(label) => {
+                *guard = None;
+                Some(label)
+            }
+            Err(_) => None,
+        }
+    }
+
+    pub fn metadata_id_supported(&self) -> bool {
+        self.conn
+            .features
+            .protocol_features
+            .scylla_metadata_id_supported
+    }
+
+    /// `Connection::prepare`.
+    pub async fn prepare(&self, statement: &Statement) -> Result<PreparedStatement, String> {
+        self.conn
+            .prepare(statement)
+            .await
+            .map_err(|e| attempt_error_label(&e))
+    }
+
+    fn unpack(
+        response: Result<QueryResponse, RequestAttemptError>,
+    ) -> Result<(QueryResult, PagingStateResponse), String> {
+        let response = response.map_err(|e| attempt_error_label(&e))?;
+        let non_error = response
+            .into_non_error_query_response()
+            .map_err(|e| attempt_error_label(&e))?;
+        let (raw_rows, paging_state_response) = match non_error.response {
+            crate::frame::response::NonErrorResponseWithDeserializedMetadataV2::Result(
+                result::ResultWithDeserializedMetadata::Rows((rs, ps)),
+            ) => (Some(rs), ps),
+            crate::frame::response::NonErrorResponseWithDeserializedMetadataV2::Result(_) => {
+                (None, PagingStateResponse::NoMorePages)
+            }
+            other => return Err(format!("UnexpectedResponse:{}", other.to_response_kind())),
+        };
+        Ok((
+            QueryResult::new_with_unknown_coordinator(
+                raw_rows,
+                non_error.tracing_id,
+                non_error.warnings,
+            ),
+            paging_state_response,
+        ))
+    }
+
+    /// `Connection::execute_raw_with_consistency` (incl. the transparent re-prepare).
+    pub async fn execute(
+        &self,
+        prepared: &PreparedStatement,
+        values: &SerializedValues,
+        page_size: Option<i32>,
+        paging_state: PagingState,
+    ) -> Result<(QueryResult, PagingStateResponse), String> {
+        let consistency = prepared
+            .config
+            .determine_consistency(self.conn.config.default_consistency);
+        let serial_consistency = prepared.config.serial_consistency.flatten();
+        let page_size = page_size.map(|p| PageSize::new(p).unwrap());
+        Self::unpack(
+            self.conn
+                .execute_raw_with_consistency(
+                    prepared,
+                    values,
+                    consistency,
+                    serial_consistency,
+                    page_size,
+                    paging_state,
+                )
+                .await,
+        )
+    }
+
+    /// `Connection::query_raw_with_consistency`.
+    pub async fn query(
+        &self,
+        statement: &Statement,
+        page_size: Option<i32>,
+        paging_state: PagingState,
+    ) -> Result<(QueryResult, PagingStateResponse), String> {
+        let consistency = statement
+            .config
+            .determine_consistency(self.conn.config.default_consistency);
+        let serial_consistency = statement.config.serial_consistency.flatten();
+        let page_size = page_size.map(|p| PageSize::new(p).unwrap());
+        Self::unpack(
+            self.conn
+                .query_raw_with_consistency(
+                    statement,
+                    consistency,
+                    serial_consistency,
+                    page_size,
+                    paging_state,
+                )
+                .await,
+        )
+    }
+
+    /// `Connection::batch_with_consistency` (incl. the re-prepare loop).
+    pub async fn batch(&self, batch: &Batch, values: impl BatchValues) -> Result<(), String> {
+        let consistency = batch
+            .config
+            .determine_consistency(self.conn.config.default_consistency);
+        let serial_consistency = batch.config.serial_consistency.flatten();
+        self.conn
+            .batch_with_consistency(batch, values, consistency, serial_consistency)
+            .await
+            .map(|_| ())
+            .map_err(|e| attempt_error_label(&e))
+    }
+
+    /// `Connection::execute_iter` (the single-connection pager).
+    pub async fn execute_iter(
+        &self,
+        prepared: PreparedStatement,
+        values: SerializedValues,
+    ) -> Result<QueryPager, String> {
+        Arc::clone(&self.conn)
+            .execute_iter(prepared, values)
+            .await
+            .map_err(|e| match e {
+                NextRowError::NextPageError(_) => "NextPageError".to_owned(),
+                NextRowError::RowDeserializationError(_) => "RowDeserializationError".to_owned(),
+                #[allow(unreachable_patterns)]
+                _ => "OtherNextRowError".to_owned(),
+            })
+    }
+
+    /// `VerifiedKeyspaceName::new` + `Connection::use_keyspace`.
+    pub async fn use_keyspace(&self, name: &str, case_sensitive: bool) -> Result<(), String> {
+        let verified = VerifiedKeyspaceName::new(name.to_owned(), case_sensitive)
+            .map_err(|e| format!("BadKeyspaceName:{}", bad_keyspace_label(&e)))?;
+        self.conn
+            .use_keyspace(&verified)
+            .await
+            .map_err(|e| match e {
+                UseKeyspaceError::BadKeyspaceName(b) => {
+                    format!("BadKeyspaceName:{}", bad_keyspace_label(&b))
+                }
+                UseKeyspaceError::RequestError(r) => {
+                    format!("RequestError:{}", attempt_error_label(&r))
+                }
+                UseKeyspaceError::KeyspaceNameMismatch { .. } => "KeyspaceNameMismatch".to_owned(),
+                UseKeyspaceError::RequestTimeout(_) => "RequestTimeout".to_owned(),
+                #[allow(unreachable_patterns)]
+                _ => "OtherUseKeyspaceError".to_owned(),
+            })
+    }
+}
+
+fn bad_keyspace_label(e: &BadKeyspaceName) -> &'static str {
+    match e {
+        BadKeyspaceName::Empty => "Empty",
+        BadKeyspaceName::TooLong(_, _) => "TooLong",
+        BadKeyspaceName::IllegalCharacter(_, _) => "IllegalCharacter",
+        #[allow(unreachable_patterns)]
+        _ => "Other",
+    }
+}
+
+/// C20: `VerifiedKeyspaceName::new` alone; `Ok((name, quoted))` is what `use_keyspace` would send.
+pub fn verify_keyspace_name(name: &str, case_sensitive: bool) -> Result<String, &'static str> {
+    match VerifiedKeyspaceName::new(name.to_owned(), case_sensitive) {
+        Ok(v) => Ok(match v.is_case_sensitive {
+            true => format!("USE \"{}\"", v.as_str()),
+            false => format!("USE {}", v.as_str()),
+        }),
+        Err(e) => Err(bad_keyspace_label(&e)),
+    }
 }
